@@ -220,7 +220,8 @@ func (p *c01) Cases(tier string, emit func(interface{})) {
 // ---------------------------------------------------------------- refactorings
 
 var c01RefNames = []string{"group-module-before", "group-module-after", "group-sibling", "group-ancestor", "group-nested", "group-submodule", "group-imported", "refine", "augment-module-last", "augment-module-last2", "augment-uses-last", "submodule-top", "uses-when-true", "uses-if-feature-on", "twice-with-refines",
-	"shadow-local-before", "shadow-local-after", "shadow-imported-before", "shadow-imported-after"}
+	"shadow-local-before", "shadow-local-after", "shadow-imported-before", "shadow-imported-after",
+	"augment-module-uses", "augment-module-uses2", "augment-uses-uses", "augment-uses-uses2"}
 
 type modset struct {
 	main string
@@ -472,12 +473,69 @@ func applyRef(nf []*snode, name string, p npath) (ms modset, ok bool) {
 			augs += fmt.Sprintf(`augment "%s" { %s} `, tp, mv.render())
 		}
 		return modset{main: front + renderAll(c) + augs + "}"}, true
-	case "augment-uses-last":
-		if !hasKids || len(x.Kids) < 2 {
+	case "augment-module-uses", "augment-module-uses2":
+		// the last child (or last two) of X come from ONE module-level augment whose body is a uses
+		if x.Kind != "container" && x.Kind != "list" && x.Kind != "choice" {
+			return ms, false
+		}
+		k := 1
+		if name == "augment-module-uses2" {
+			k = 2
+		}
+		if len(x.Kids) < k {
+			return ms, false
+		}
+		c := cloneForest(nf)
+		t := nodeAt(c, p)
+		moved := t.Kids[len(t.Kids)-k:]
+		t.Kids = t.Kids[:len(t.Kids)-k]
+		if x.Kind == "choice" && len(t.Kids) == 0 {
+			return ms, false
+		}
+		body := renderAll(moved)
+		if strings.Contains(body, "when ") {
+			return ms, false
+		}
+		return modset{main: front + "grouping ga { " + body + "} " + renderAll(c) + fmt.Sprintf(`augment "%s" { uses ga; } `, schemaPathOf(nf, p)) + "}"}, true
+	case "augment-uses-uses", "augment-uses-uses2":
+		// X's children come from a grouping; the last child (or two) of X's first child is added by
+		// an augment on the uses whose body is itself a uses
+		if !hasKids {
 			return ms, false
 		}
 		first := x.Kids[0]
-		if first.Kind != "container" && first.Kind != "list" {
+		if first.Kind != "container" && first.Kind != "list" && first.Kind != "choice" {
+			return ms, false
+		}
+		k := 1
+		if name == "augment-uses-uses2" {
+			k = 2
+		}
+		if len(first.Kids) < k || (first.Kind == "choice" && len(first.Kids) == k) {
+			return ms, false
+		}
+		c := cloneForest(nf)
+		t := nodeAt(c, p)
+		f := t.Kids[0]
+		moved := f.Kids[len(f.Kids)-k:]
+		f.Kids = f.Kids[:len(f.Kids)-k]
+		mbody := renderAll(moved)
+		if strings.Contains(mbody, "when ") {
+			return ms, false
+		}
+		body := renderAll(t.Kids)
+		t.Kids = nil
+		t.Props = append(t.Props, fmt.Sprintf("uses g { augment %s { uses ga; } }", f.Name))
+		return modset{main: front + "grouping ga { " + mbody + "} grouping g { " + body + "} " + renderAll(c) + "}"}, true
+	case "augment-uses-last":
+		if !hasKids {
+			return ms, false
+		}
+		first := x.Kids[0]
+		if first.Kind != "container" && first.Kind != "list" && first.Kind != "choice" {
+			return ms, false
+		}
+		if first.Kind == "choice" && len(first.Kids) < 2 {
 			return ms, false
 		}
 		// X's children come from a grouping; the last child of X's first child is added by an augment on the uses
@@ -731,6 +789,33 @@ func c01Scenarios(res *eng.Result, ss *sigSet) {
 		{"when-on-child-kept-when-uses-has-when",
 			m(`container a { leaf l { type string; when "../x"; } }`),
 			m(`grouping g { leaf l { type string; when "../x"; } } container a { uses g; }`)},
+		{"augment-choice-with-uses-body",
+			m(`choice ch { leaf s1 { type string; } leaf u1 { type string; } container u2 { leaf y { type string; } } }`),
+			m(`grouping ga { leaf u1 { type string; } container u2 { leaf y { type string; } } } choice ch { leaf s1 { type string; } } augment "/ch" { uses ga; }`)},
+		{"augment-choice-with-uses-and-case",
+			m(`choice ch { leaf s1 { type string; } leaf u1 { type string; } leaf u2 { type string; } case c3 { leaf s3 { type string; } } }`),
+			m(`grouping ga { leaf u1 { type string; } leaf u2 { type string; } } choice ch { leaf s1 { type string; } } augment "/ch" { uses ga; case c3 { leaf s3 { type string; } } }`)},
+		{"uses-augment-choice-with-uses-body",
+			m(`container a { choice ch { leaf s1 { type string; } leaf u1 { type string; } container u2 { leaf y { type string; } } } }`),
+			m(`grouping ga { leaf u1 { type string; } container u2 { leaf y { type string; } } } grouping g { choice ch { leaf s1 { type string; } } } container a { uses g { augment ch { uses ga; } } }`)},
+		{"uses-augment-choice-with-case-and-shorthand",
+			m(`container a { choice ch { leaf s1 { type string; } case c2 { leaf s2 { type string; } } leaf s3 { type string; } } }`),
+			m(`grouping g { choice ch { leaf s1 { type string; } } } container a { uses g { augment ch { case c2 { leaf s2 { type string; } } leaf s3 { type string; } } } }`)},
+		{"uses-augment-container-with-uses-body",
+			m(`container a { container c { leaf s1 { type string; } leaf u1 { type string; } leaf u2 { type string; } } }`),
+			m(`grouping ga { leaf u1 { type string; } leaf u2 { type string; } } grouping g { container c { leaf s1 { type string; } } } container a { uses g { augment c { uses ga; } } }`)},
+		{"uses-augment-into-case",
+			m(`container a { choice ch { case c1 { leaf s1 { type string; } leaf u1 { type string; } } } }`),
+			m(`grouping ga { leaf u1 { type string; } } grouping g { choice ch { case c1 { leaf s1 { type string; } } } } container a { uses g { augment ch/c1 { uses ga; } } }`)},
+		{"augment-case-with-uses-body",
+			m(`choice ch { case c1 { leaf s1 { type string; } leaf u1 { type string; } leaf u2 { type string; } } }`),
+			m(`grouping ga { leaf u1 { type string; } leaf u2 { type string; } } choice ch { case c1 { leaf s1 { type string; } } } augment "/ch/c1" { uses ga; }`)},
+		{"augment-with-action-and-notification",
+			m(`container a { leaf l { type string; } action act { input { leaf i { type string; } } } notification nn { leaf e { type string; } } }`),
+			m(`container a { leaf l { type string; } } augment "/a" { action act { input { leaf i { type string; } } } notification nn { leaf e { type string; } } }`)},
+		{"uses-augment-with-action-and-notification",
+			m(`container a { container c { leaf l { type string; } action act { input { leaf i { type string; } } } notification nn { leaf e { type string; } } } }`),
+			m(`grouping g { container c { leaf l { type string; } } } container a { uses g { augment c { action act { input { leaf i { type string; } } } notification nn { leaf e { type string; } } } } }`)},
 		{"recursive-grouping-terminates-like-inline-depth",
 			m(`container a { leaf l { type string; } }`),
 			m(`grouping g { leaf l { type string; } } container a { uses g; }`)},
